@@ -166,6 +166,9 @@ def compare(script, per_op, prop, line_lo, line_hi, counters):
         got_list = per_op.get(line, [])
         got = dict(got_list)
         kind = exp["kind"]
+        req = exp.get("requires_line")
+        if req is not None and dict(per_op.get(req, [])).get(exp["requires"][0]) != exp["requires"][1]:
+            continue
         if kind == "observe":
             counters["observations"] = counters.get("observations", 0) + 1
             mismatch = False
@@ -189,9 +192,15 @@ def compare(script, per_op, prop, line_lo, line_hi, counters):
                             facts["missing_sign_extension"] = int(want) < 0 and int(have) == int(want) + (1 << facts["bits"])
                         except (ValueError, TypeError):
                             pass
-                    if prop in ("C01", "C03", "C20", "C06"):
+                    if exp.get("restored"):
+                        fail("restored_view_differs_from_original", [facts["kind"], facts.get("scalar")],
+                             {"key": key, "original": want, "restored": have}, line, facts, pr="C06")
+                    elif prop in ("C01", "C03", "C20", "C06"):
+                        # what a view reports over given bytes is C01's subject; the other checks use the
+                        # observation as the post-state of their own operation
+                        owner = "C01" if (prop == "C01" or facts.get("array_extent_exceeds_backing")) else prop
                         fail("observation_mismatch", [facts["kind"]], {"key": key, "expected": want, "observed": have}, line,
-                             facts, pr="C01" if prop == "C01" else prop)
+                             facts, pr=owner)
                     mismatch = True
                     if facts.get("array_extent_exceeds_backing") or facts.get("missing_sign_extension"):
                         # explained by a recorded finding (if it is listed): keep comparing the rest
@@ -225,12 +234,19 @@ def compare(script, per_op, prop, line_lo, line_hi, counters):
         elif kind == "write":
             counters["writes"] = counters.get("writes", 0) + 1
             w = got.get("write")
-            if w in (None, "??", "--"):
-                counters["write_path_absent"] = counters.get("write_path_absent", 0) + 1
-                continue
             if exp["could"] is None:
                 counters["unspecified"] = counters.get("unspecified", 0) + 1
                 continue
+            if exp["could"] == "-":
+                counters["write_path_absent"] = counters.get("write_path_absent", 0) + 1
+                if w not in ("--", "??") or got.get("bytes") != exp["bytes"]:
+                    fail("write_to_absent_element", [], {"path": exp["path"], "observed": w, "expected_bytes": exp["bytes"],
+                                                        "observed_bytes": got.get("bytes")}, line, exp.get("facts", {}))
+                    break
+                continue
+            if w in (None, "??", "--"):
+                fail("write_path_missing_in_view", [], {"path": exp["path"], "observed": w}, line, exp.get("facts", {}))
+                break
             facts = dict(exp.get("facts", {}))
             if w[0] != exp["could"]:
                 fail("could_write_mismatch", [facts.get("scalar"), facts.get("via")],
